@@ -536,7 +536,13 @@ def process(ctx, rng, cases, prop, tag, isd_cases=None, short_terms=None, short_
             else:
                 reqs, groups = c['requests'], c['groups']
             case = {'topo': c['topo'], 'requests': reqs, 'groups': groups}
-            obs = drive(N, reqs, groups)
+            try:
+                obs = drive(N, reqs, groups)
+            except Exception as e:  # noqa: an exception out of the planning sequence is an observation, not a crash
+                ctx.case(case, True)
+                ctx.violation('exception', f'{type(e).__name__}: {e} raised by deduplicate_disjunctions / '
+                              'requests_aggregation (neither paths nor DisjunctionError)', case)
+                continue
             if obs['out'] == 'skip':
                 ctx.count('skipped_service_error')
                 continue
